@@ -23,8 +23,10 @@ func (self *visitorUserNode) trace(cb string) {
 			}
 		case fd.IsList() && msg:
 			pending = "rep_msg"
+		case fd.IsList() && fd.Type().IsPacked():
+			pending = "rep_packed"
 		case fd.IsList():
-			pending = "rep_scalar"
+			pending = "rep_unpacked"
 		case msg:
 			pending = "msg"
 		default:
